@@ -39,6 +39,10 @@ TRANSLATORS = [
     ('py2v_charact', [sys.executable, os.path.join(TOOLS, 'py2v_charact.py'), REPO_SRC, os.path.join(COQ, 'Gen')],
      ['Gen/CharactGen.v']),
     ('py2v_hk', [sys.executable, os.path.join(TOOLS, 'py2v_hk.py'), REPO_SRC, os.path.join(COQ, 'Gen')], ['Gen/HkGen.v']),
+    ('py2v_adsorbates', [sys.executable, os.path.join(TOOLS, 'py2v_adsorbates.py'), REPO_SRC, os.path.join(COQ, 'Gen')], ['Gen/AdsorbatesGen.v']),
+    ('py2v_static', [sys.executable, os.path.join(TOOLS, 'py2v_static.py'), REPO_SRC, os.path.join(COQ, 'Gen')], ['Gen/AcquireGen.v']),
+    ('py2v_adsmethods', [sys.executable, os.path.join(TOOLS, 'py2v_adsmethods.py'), REPO_SRC, os.path.join(COQ, 'Gen')], ['Gen/AdsMethodsGen.v']),
+    ('py2v_tables', [sys.executable, os.path.join(TOOLS, 'py2v_tables.py'), REPO_SRC, os.path.join(COQ, 'Gen')], ['Gen/TablesGen.v']),
 ]
 
 
@@ -106,7 +110,12 @@ class RepoLock:
     def __enter__(self):
         self.f = open(os.path.join(VERIF, '.repo.lock'), 'w')
         if not os.environ.get('VERIF_NOLOCK'):
+            # a gate taken first makes the lock fair: a waiting exclusive holder (seed evaluation) stops NEW readers
+            g = open(os.path.join(VERIF, '.repo.gate'), 'w')
+            fcntl.flock(g, fcntl.LOCK_EX)
             fcntl.flock(self.f, fcntl.LOCK_EX if self.ex else fcntl.LOCK_SH)
+            fcntl.flock(g, fcntl.LOCK_UN)
+            g.close()
         return self
 
     def __exit__(self, *a):
